@@ -287,8 +287,12 @@ class Node:
     def on_wake(self):
         if self.running or not self.job_alive():
             return
-        self.wake_pending = True
         w = self.world
+        if self.wake_pending and (w.mode != 'timed' or self.job_due is not None):
+            # already woken by an earlier put: that one decides when the thread runs; this item only
+            # makes the loop iterate once more (it stays in the queue)
+            return
+        self.wake_pending = True
         if w.mode == 'timed':
             cand = w.now + w.draw_eps(self)
             if self.job_due is None or cand < self.job_due:
@@ -387,6 +391,7 @@ class World:
         self.n_eps = 0
         self.last_rx = {}      # timed mode: last delivery instant per receiver (FIFO)
         self.depth = 0
+        self.eps_only = None   # names of the nodes whose scheduling latency is symbolic (None: all)
         self.branching = True  # False: canonical schedule (job pass first), no interleaving choices
 
     # ---- helpers
@@ -394,7 +399,7 @@ class World:
         return Node(self, name, dll, **kw)
 
     def draw_eps(self, node):
-        if self.eps_range is None:
+        if self.eps_range is None or (self.eps_only is not None and node.name not in self.eps_only):
             return self.eps
         self.n_eps += 1
         return self.ex.fresh_real('eps_%s_%d' % (node.name, self.n_eps), self.eps_range[0], self.eps_range[1])
